@@ -1,3 +1,4 @@
+import NitroVerif.Lemmas.OptResult
 import NitroVerif.Model.Opt
 import NitroVerif.Spec.Opt
 import NitroVerif.Lemmas.Opt
@@ -12,5 +13,53 @@ open NitroVerif.Opt
 theorem explanation_is_lossless (d : Decl) (h : WFNames d) (argv : List Str) (items : List Item)
     (he : explain d argv = some items) : render d items = argv :=
   explainGo_render d h false argv items he
+
+
+/-- **The refinement theorem** all parse-level statements of C01–C04, C11, C12 rest on: for every
+declaration with pairwise distinct long names (what the declaration API guarantees, Props/C13), every
+environment and every argument vector, the code-shaped model of `parser::parse` — token loop with
+`user_input`, `matches`, `update`, `check_short_list`, then `validate_options` — returns exactly what
+the specification says: explain the command line once, then interpret the items per option.
+(Proof: Lemmas/OptTok, OptDispatch, OptLoop, OptCheck, OptApply, OptInterp, OptRefine.) -/
+theorem parse_refines_spec (d : Decl) (hn : (allNames d).Nodup) (env : Env) (argv : List Str) :
+    parse d env argv = specParse d env argv :=
+  parse_factor d hn env argv
+
+/-- **Nothing is ignored.**  Whenever `parse` succeeds — for any declaration the declaration API can
+produce, any environment, any argument vector — there is an explanation of the *whole* argument
+vector: a list of items which, spelled back, is the argument vector token for token; every item
+names a declared option of the right kind, every letter of a short bundle is a declared toggle; and
+the result is the interpretation of exactly those items (so every occurrence is counted: see
+`posCount`, `cliValues`, `positionalsOf`). -/
+theorem nothing_ignored (d : Decl) (hn : (allNames d).Nodup) (env : Env) (argv : List Str) (r : Result)
+    (h : parse d env argv = .ok r) :
+    ∃ items, explain d argv = some items ∧ render d items = argv ∧ (∀ it ∈ items, ItemOk d it) ∧
+      interp d env items = .ok r := by
+  obtain ⟨_, items, hex, hi⟩ := parse_ok_inv d hn env argv r h
+  exact ⟨items, hex, explanation_is_lossless d (wfNames_of_nodup d hn) argv items hex,
+    explainGo_itemOk argv false items hex, hi⟩
+
+/-- **What cannot be explained is rejected**, with the user-input error: an argument vector with a
+token (or a letter of a bundle) that matches nothing declared has no explanation. -/
+theorem unexplained_is_rejected (d : Decl) (hn : (allNames d).Nodup) (hc : consistent d = true) (env : Env)
+    (argv : List Str) (h : explain d argv = none) : parse d env argv = .error .user :=
+  parse_of_unexplained d hn hc env argv h
+
+/-- a bundle with a letter that is no toggle has no explanation (`-vz`, `-vo file`, `-oo v`) -/
+theorem bundle_with_unknown_letter (d : Decl) (letters : Str) (next : Option Str) (c : Char)
+    (hlen : 2 ≤ letters.length) (hc : c ∈ letters) (hno : isTogLetter d c = false) (v : Option Str) :
+    explainShort d letters v next = none := by
+  unfold explainShort
+  split
+  · simp at hlen
+  · have : letters.all (isTogLetter d) = false := by
+      rw [List.all_eq_false]; exact ⟨c, hc, by simp [hno]⟩
+    simp [this]
+
+example : explainShort ⟨[], [], [⟨['v','e','r'], some 'v', none, 0, false⟩], none, false⟩ ['v', 'z'] none none = none := by
+  decide
+example : explainShort ⟨[], [], [⟨['v','e','r'], some 'v', none, 0, false⟩], none, false⟩ ['v', 'v'] none none
+    = some (.togShort ['v', 'v'], false) := by
+  decide
 
 end NitroVerif.Props.C01
